@@ -153,6 +153,26 @@ def d3(cx: Cx, ob: Ob) -> None:
             ob.violate(fn.qualname, where(fn, line), "get_subconverter does not filter records", detail="no-filter")
             continue
         fields = set()
+        # canonical polarity: `not X` as (X, False); a true conjunction as its conjuncts
+        norm: list = []
+
+        def _add(c_, p_):
+            while op(c_) in ("not", "truth"):
+                if op(c_) == "not":
+                    p_ = not p_
+                c_ = c_[1]
+            if op(c_) == "and" and p_:
+                for y_ in c_[1]:
+                    _add(y_, True)
+            elif op(c_) == "or" and not p_:
+                for y_ in c_[1]:
+                    _add(y_, False)
+            else:
+                norm.append((c_, p_))
+
+        for cnd, pol in conds:
+            _add(cnd, pol)
+        conds = norm
         for cnd, pol in conds:
             recognised = False
             for x in subterms(cnd):
